@@ -4,6 +4,9 @@ import ClaripyProofs.Lemmas.Solver.CompositeHistory
 import ClaripyProofs.Lemmas.Solver.CompositeQuery
 import ClaripyProofs.Lemmas.Solver.CompositeQueries
 import ClaripyProofs.Lemmas.Solver.CompositeReabsorb
+import ClaripyProofs.Lemmas.Solver.CompositeKeep
+import ClaripyProofs.Lemmas.Solver.CompositeReplace
+import ClaripyProofs.Lemmas.Solver.CompositeExtrema
 /-!
 # C12 — SolverComposite answers like a monolithic solver
 
@@ -278,19 +281,19 @@ theorem C12_update_accepts_valid (dflt : Var → Nat) {Um Ut : List Con} (hwf : 
 /-- non-vacuity: the model `{x: 5, y: 7}` of `[x == 5, y-tautology]`, the part `{x}`, the child `x == 5` over `{x}` -/
 example : sameSet (modelKeys (PModel.restrict [(0, 5), (1, 7)] [0])) [0] = true := by decide
 
-/-! ### `_reabsorb_solver` does NOT re-establish `CInv` as it is stated (the invariant is too strong on a record nobody uses)
+/-! ### a record with exhausted-markers and NO cached model (why the marker clauses of C11's `MCInv` are guarded)
 
 `CInv.kids` demands the C11 invariant of EVERY record of the world of children, the parts that `split()` creates inside
 `_reabsorb_solver` included.  `ModelCacheMixin.split` gives a part the filtered models of the solver that was split — replacing what
 the part's own `add` cached.  A part whose only constraint is `BVS == BVV` got, from `_trivial_model_optimization` in that `add`, the
 five exhausted-markers for the variable AND the trivial model; after the replacement it keeps the markers, and holds no model at all
-when the split solver had none (the merged solver answered without a Z3 model to cache: `solution()` answered `False` here).  C11's
-`MCInv` reads a marker as "every feasible value is the value of a cached model": false for that record.  The real class is not
-wrong about anything: every use of a marker is guarded by `len(results) > 0` / `len(cached) > 0` (batch_eval, min, max), and in this
-history the part is garbage (with `len(parts) == len(old)` its models / markers are `update`d into the old child, which has the
-marker and the trivial model already).  Reproduced on the real class with `_model_hook` silenced (design_notes/C12.md).
-What the next round needs: the marker clauses of `MCInv` under the guard `models ≠ []` (a change of the C11 invariant), or `CInv`
-speaking only about records reachable from `_solvers`. -/
+when the split solver had none (the merged solver answered without a Z3 model to cache: `solution()` answered `False` here).
+Reading a marker as "every feasible value is the value of a cached model" (the form `MCInv` had) is false for that record
+(`C12_reabsorb_marker_without_model`).  The real class is not wrong about anything: every use of a marker is guarded by
+`len(results) > 0` / `len(cached) > 0` (batch_eval, min, max).  Reproduced on the real class with `_model_hook` silenced
+(design_notes/C12.md).  `MCInv` now says what the code maintains and needs: a marked expression has one value at most under the
+constraints, or all its values are cached — under the guard of the code (some model cached) that IS the old reading
+(`C12_marker_guarded`), it holds of this record, and it survives the caching of any valid model later on. -/
 
 def wCx : Con := { id := 1, vars := [0], sem := fun a => decide (a 0 = 5), triv := some (0, 5, 100) }
 /-- a constraint on `y` that every value satisfies (so that Z3 need not mention `y` in a model) -/
@@ -318,11 +321,14 @@ def wCheck (s : CSt) : Bool :=
 
 theorem test_wCheck : wCheck (stateAfter wEnv {} wHist) = true := by decide +kernel
 
-/-- **witness**: after `add(x == 5)`, `add(<tautology about y>)`, `solution(<x, y>, 7)` the state satisfies `CInv` for NO choice of
-the ghost lists, whatever registry contains the expression `BVS x` -/
-theorem C12_reabsorb_breaks_CInv_as_stated (R : Con → Prop) (RE : Exp → Prop) (hRE : RE wX) (U : List Con) (Us : List (List Con)) :
-    ¬ CInv R RE wEnv U Us (stateAfter wEnv {} wHist) := by
-  intro h
+/-- **witness**: after `add(x == 5)`, `add(<tautology about y>)`, `solution(<x, y>, 7)` record 5 of the world carries the
+eval-exhausted marker of `BVS x` and no model, while `x = 5` is feasible for it: the unguarded reading of the marker ("every feasible
+value is the value of a cached model") is false in every state-invariant, whatever the ghost lists -/
+theorem C12_reabsorb_marker_without_model (R : Con → Prop) (RE : Exp → Prop) (U : List Con) (Us : List (List Con))
+    (h : CInv R RE wEnv U Us (stateAfter wEnv {} wHist)) :
+    wX.id ∈ ((stateAfter wEnv {} wHist).w.fes.getD 5 {}).evalExh ∧ ((stateAfter wEnv {} wHist).w.fes.getD 5 {}).models = [] ∧
+    ¬ (∀ v, Feasible (Us.getD 5 []) wX v →
+        ∃ m ∈ ((stateAfter wEnv {} wHist).w.fes.getD 5 {}).models, wX.val (m.complete wEnv.dflt) = v) := by
   have hchk := test_wCheck
   generalize stateAfter wEnv {} wHist = s at h hchk
   simp only [wCheck, Bool.and_eq_true, decide_eq_true_eq, List.isEmpty_iff, beq_iff_eq] at hchk
@@ -339,33 +345,197 @@ theorem C12_reabsorb_breaks_CInv_as_stated (R : Con → Prop) (RE : Exp → Prop
       simp only [List.mem_singleton] at hc'
       subst hc'; exact hcons
     · cases hcons
-  obtain ⟨m, hmem, _⟩ := hsi.mc.evalExh wX hRE (by rw [hfe, hexh]; simp [wX]) (wX.val wA0) ⟨wA0, hm, rfl⟩
-  rw [hfe, hmod] at hmem
+  refine ⟨by rw [hexh]; simp [wX], hmod, fun hall => ?_⟩
+  obtain ⟨m, hmem, _⟩ := hall (wX.val wA0) ⟨wA0, hm, rfl⟩
+  rw [hmod] at hmem
   cases hmem
+
+/-- **under the guard of the code the marker means what it meant**: with some model cached, every value a marked expression can
+take is the value of a cached model (what `batch_eval` uses), and no value beats all cached ones (what `min` / `max` use) -/
+theorem C12_marker_guarded {RE : Exp → Prop} {E : Env} {U : List Con} {fe : Frontend} (h : MCInv RE E U fe)
+    (hne : fe.models ≠ []) (e : Exp) (he : RE e) :
+    (e.id ∈ fe.evalExh → ∀ v, Feasible U e v → ∃ m ∈ fe.models, e.val (m.complete E.dflt) = v) ∧
+    (∀ isMax signed, e.id ∈ optFlags isMax signed fe → ∀ v, Feasible U e v →
+      ∃ m ∈ fe.models, Beats isMax signed e.bits (e.val (m.complete E.dflt)) v) :=
+  ⟨fun hi v hv => h.evalExh hne e he hi v hv, fun isMax signed hi v hv => h.opt hne isMax signed e he hi v hv⟩
+
+/-- without the guard: one value at most, or all values cached -/
+theorem C12_marker_unguarded {RE : Exp → Prop} {E : Env} {U : List Con} {fe : Frontend} (h : MCInv RE E U fe) (e : Exp)
+    (he : RE e) (hi : e.id ∈ fe.evalExh) :
+    ConstUnder U e ∨ ∀ v, Feasible U e v → ∃ m ∈ fe.models, e.val (m.complete E.dflt) = v := h.evalExhW e he hi
 
 /-- the answers of that history are the right ones -/
 theorem test_wAnswers : (runComp wEnv {} [] wHist).map (·.2.2) = [.cons [1], .cons [2], .bool false] := by decide +kernel
 
+/-! ### histories that go on after a query
+
+`_solver_for_names` puts a merged child into the world that `_solvers` does not point to; the child's query fills its caches;
+`_reabsorb_solver` hands the findings back.  `CInv` is kept by the first two whatever the query (`CInv.of_world`), and by the third
+  * when the names of the query belong to ONE child at most (then `_solver_for_names` returns that child, or a blank one, and
+    `_reabsorb_solver` returns at once: `C12_reabsorb_noop`) — statically: all names of the query are one variable (`OneName`);
+  * in general: `ReabsorbKeeps` — proved (`C12_reabsorb_keeps_invariant`, Lemmas/Solver/CompositeSplit / CompositeUpdate /
+    CompositeReplace.lean): `split()` makes parts that satisfy the C11 invariant (their markers are those of
+    `_trivial_model_optimization`: one value at most — the corrected `MCInv`), know pairwise disjoint variable sets covering the
+    merged child's variables and hold all its constraints that have variables; in the branch `len(parts) == len(old)` `update`
+    hands models (`C12_update_accepts_valid`) and markers (`part_marker_const`) to the old children, in the other branch the parts
+    replace the children (`storeAll`); the variable-less constraints of the merged child are dropped there, harmlessly: the merged
+    child is satisfiable, so they are true. -/
+
+/-- `_reabsorb_solver(m)` does nothing when `m` knows no variable, or is the child `_solvers` has for its least variable -/
+theorem C12_reabsorb_noop (E : Env) (s : CSt) (m : Nat)
+    (h : (s.child m).variables = [] ∨ alGet? s.c.solvers (minVar (s.child m).variables) = some m) :
+    reabsorb E m s = (.ok (), s) := reabsorb_noop s m h
+
+/-- **one call keeps the invariant and is answered as `Judge` demands**: `add`, `satisfiable()`, `eval` / `batch_eval` /
+`solution` (no extra constraints; name sets allowed by `K`: one child at most owns them in this state — `UniqOwner`, e.g. all names
+are one variable —, or `ReabsorbKeeps`), `is_true` / `is_false` (any extra constraints) -/
+theorem C12_call_keeps_invariant {E : Env} {R : Con → Prop} {RE : Exp → Prop} (H : SolverHyps R RE E) {K : List Var → Prop}
+    {U : List Con} {Us : List (List Con)} {s : CSt} (hK : ∀ names, K names → UniqOwner s.c names ∨ ReabsorbKeeps R RE E)
+    (h : CInv R RE E U Us s) (op : Op) (hop : InScopeCH R RE K op) :
+    JudgeOrGiveUp E (usersAfter U op) op (compStep E s op).1 ∧ ∃ Us', CInv R RE E (usersAfter U op) Us' (compStep E s op).2 :=
+  comp_step2 H hK h op hop
+
+/-- **ANY history** of `add` / `satisfiable()` / `eval` / `batch_eval` / `solution` / `is_true` / `is_false` on one
+CompositeFrontend, from the empty composite, the value queries about one variable each (any number of constraints over any
+variables in between: the children merge and grow as the constraints connect them): EVERY answer of the model is the one `Judge`
+demands for all the constraints added so far (or an honest give-up of a child's backend).  No hypothesis besides `SolverHyps`.
+Superseded by `C12_composite_history` (any variables), kept because its proof does not go through `_reabsorb_solver` at all. -/
+theorem C12_composite_history_partial {E : Env} {R : Con → Prop} {RE : Exp → Prop} (H : SolverHyps R RE E) (track : Bool)
+    (hist : List Op) (hok : ∀ op ∈ hist, InScopeCH R RE OneName op) :
+    ∀ x ∈ runComp E { c := { track := track }, w := { fes := [] } } [] hist, JudgeOrGiveUp E x.1 x.2.1 x.2.2 :=
+  comp_hist2 H (fun _ hk => Or.inl hk) hist _ [] [] (cinv_init R RE E track) hok
+
+/-- the invariant holds at the end of such a history (so: at every point of it) -/
+theorem C12_composite_history_invariant {E : Env} {R : Con → Prop} {RE : Exp → Prop} (H : SolverHyps R RE E) (track : Bool)
+    (hist : List Op) (hok : ∀ op ∈ hist, InScopeCH R RE OneName op) :
+    ∃ Us, CInv R RE E (usersAfterOps [] hist) Us (compRun E { c := { track := track }, w := { fes := [] } } hist) :=
+  comp_hist2_inv H (fun _ hk => Or.inl hk) hist _ [] [] (cinv_init R RE E track) hok
+
+/-- **ANY history in which every value query finds its names within ONE child** (`OwnersOk`: at the moment of the query the
+variables of its expressions were connected by constraints added before, or are one variable, or are unknown — a condition on the
+dict `_solvers` along the run, checkable by running the model; `ownersOk_of_oneName`: one-variable queries satisfy it in every run):
+every answer is the one `Judge` demands.  Expressions over any number of variables. -/
+theorem C12_composite_history_one_owner_partial {E : Env} {R : Con → Prop} {RE : Exp → Prop} (H : SolverHyps R RE E)
+    (track : Bool) (hist : List Op) (hok : ∀ op ∈ hist, InScopeCH R RE (fun _ => True) op)
+    (hown : OwnersOk E { c := { track := track }, w := { fes := [] } } hist) :
+    ∀ x ∈ runComp E { c := { track := track }, w := { fes := [] } } [] hist, JudgeOrGiveUp E x.1 x.2.1 x.2.2 :=
+  comp_hist3 H hist _ [] [] (cinv_init R RE E track) hok hown
+
+/-- non-vacuity: the history `cCompHist2` below satisfies `OwnersOk` in every run -/
+example (s : CSt) (hist : List Op) (h : ∀ op ∈ hist, InScopeCH cR cRE OneName op) : OwnersOk cEnv s hist :=
+  ownersOk_of_oneName hist s h
+
+/-- **`_reabsorb_solver(m)` re-establishes the bookkeeping invariant** — both branches — when it is called, with the invariant in
+force, on a child `m` that holds exactly the constraints of the children owning its variables, those children being satisfiable
+(the situation after `_ensure_sat`, `_solver_for_names` and the child's query) -/
+theorem C12_reabsorb_keeps_invariant {E : Env} {R : Con → Prop} {RE : Exp → Prop} (H : SolverHyps R RE E)
+    (U : List Con) (Us : List (List Con)) (s : CSt) (m : Nat) (h : CInv R RE E U Us s) (hm : m < s.w.fes.length)
+    (hkeys : ∀ v ∈ (s.child m).variables, ∃ t, alGet? s.c.solvers v = some t)
+    (hsup : ∀ t ∈ s.c.solversFor (s.child m).variables, ∀ v ∈ (s.child t).variables, v ∈ (s.child m).variables)
+    (hsem : ∀ a, Models (Us.getD m []) a ↔ ∀ t ∈ s.c.solversFor (s.child m).variables, Models (Us.getD t []) a)
+    (hsat : ∀ t ∈ s.c.solversFor (s.child m).variables, Satisfiable (Us.getD t [])) (hun : s.c.unsat = false)
+    (s' : CSt) (hrun : reabsorb E m s = (.ok (), s')) : ∃ Us', CInv R RE E U Us' s' :=
+  reabsorbKeeps H U Us s m h hm hkeys hsup hsem hsat hun s' hrun
+
+/-- **`max(e)` of the composite** (registered symbolic expression, no extra constraints) in ANY state satisfying the invariant: the
+optimum over ALL constraints added, in the requested signedness (or an honest give-up); the invariant holds again afterwards -/
+theorem C12_max_correct {E : Env} {R : Con → Prop} {RE : Exp → Prop} (H : SolverHyps R RE E) {U : List Con}
+    {Us : List (List Con)} {s : CSt} (h : CInv R RE E U Us s) (e : Exp) (he : RE e) (hc : e.conc = none) (signed : Bool) :
+    JudgeOrGiveUp E U (.max e [] signed) (compStep E s (.max e [] signed)).1 ∧
+    ∃ Us', CInv R RE E U Us' (compStep E s (.max e [] signed)).2 :=
+  compExtremum_step H h true e he hc signed
+
+/-- **`min(e)` of the composite**, likewise -/
+theorem C12_min_correct {E : Env} {R : Con → Prop} {RE : Exp → Prop} (H : SolverHyps R RE E) {U : List Con}
+    {Us : List (List Con)} {s : CSt} (h : CInv R RE E U Us s) (e : Exp) (he : RE e) (hc : e.conc = none) (signed : Bool) :
+    JudgeOrGiveUp E U (.min e [] signed) (compStep E s (.min e [] signed)).1 ∧
+    ∃ Us', CInv R RE E U Us' (compStep E s (.min e [] signed)).2 :=
+  compExtremum_step H h false e he hc signed
+
+/-- the footprint of the child's `min` / `max` (what `_reabsorb_solver` and the bookkeeping need of the call): `variables` and
+`constraints` unchanged, cached models within the variables -/
+theorem C12_child_footprint_extrema {E : Env} {R : Con → Prop} {RE : Exp → Prop} (H : SolverHyps R RE E) {G : St → Prop}
+    {U : List Con} (isMax : Bool) (e : Exp) (he : RE e) (hc : e.conc = none) (extra : List Con) (signed : Bool) :
+    FootSpec R RE E G U (if isMax then (childOps E).max e extra signed else (childOps E).min e extra signed) :=
+  child_extremum_foot H isMax e he hc extra signed
+
+/-- **C12 for whole histories of CompositeFrontend**: ANY history of `add` / `satisfiable()` / `eval` / `batch_eval` / `min` / `max` /
+`solution` (registered symbolic expressions over ANY variables, no extra constraints) / `is_true` / `is_false` (any extra
+constraints) on one composite, from the empty one: EVERY answer of the model is the one `Judge` demands for all the constraints
+added so far (or an honest give-up of a child's backend).  No hypothesis besides `SolverHyps`. -/
+theorem C12_composite_history {E : Env} {R : Con → Prop} {RE : Exp → Prop} (H : SolverHyps R RE E) (track : Bool)
+    (hist : List Op) (hok : ∀ op ∈ hist, InScopeCX R RE op) :
+    ∀ x ∈ runComp E { c := { track := track }, w := { fes := [] } } [] hist, JudgeOrGiveUp E x.1 x.2.1 x.2.2 :=
+  comp_histX H hist _ [] [] (cinv_init R RE E track) hok
+
+/-- non-vacuity: the ten calls of `cCompHist2` (below), then the extrema of the variable -/
+example : InScopeCX cR cRE (.max cExp [] false) ∧ InScopeCX cR cRE (.min cExp [] true) :=
+  ⟨⟨rfl, rfl, rfl⟩, ⟨rfl, rfl, rfl⟩⟩
+
+example (op : Op) (h : InScopeCH cR cRE (fun _ => True) op) : InScopeCX cR cRE op := by
+  cases op <;> first | exact h | exact h.elim
+
+/-- the bookkeeping invariant holds at the end of every such history (so: at every point of it) -/
+theorem C12_composite_history_keeps_invariant {E : Env} {R : Con → Prop} {RE : Exp → Prop} (H : SolverHyps R RE E)
+    (track : Bool) (hist : List Op) (hok : ∀ op ∈ hist, InScopeCH R RE (fun _ => True) op) :
+    ∃ Us, CInv R RE E (usersAfterOps [] hist) Us (compRun E { c := { track := track }, w := { fes := [] } } hist) :=
+  comp_hist2_inv H (fun _ _ => Or.inr (reabsorbKeeps H)) hist _ [] [] (cinv_init R RE E track) hok
+
+/-- one call in ANY state satisfying the invariant: right answer, invariant again -/
+theorem C12_call_correct {E : Env} {R : Con → Prop} {RE : Exp → Prop} (H : SolverHyps R RE E)
+    {U : List Con} {Us : List (List Con)} {s : CSt} (h : CInv R RE E U Us s) (op : Op)
+    (hop : InScopeCX R RE op) :
+    JudgeOrGiveUp E (usersAfter U op) op (compStep E s op).1 ∧ ∃ Us', CInv R RE E (usersAfter U op) Us' (compStep E s op).2 :=
+  comp_stepX H h op hop
+
+/-- non-vacuity: the history `cCompHist2` (below) is in scope -/
+example (op : Op) (h : InScopeCH cR cRE OneName op) : InScopeCH cR cRE (fun _ => True) op :=
+  h.mono (fun _ _ _ => trivial)
+
+/-- any history, any name sets, GIVEN that `_reabsorb_solver` re-establishes the invariant (`ReabsorbKeeps` — now a theorem:
+`C12_reabsorb_keeps_invariant`; this is the conditional form `C12_composite_history` instantiates) -/
+theorem C12_composite_history_given_reabsorb_partial {E : Env} {R : Con → Prop} {RE : Exp → Prop} (H : SolverHyps R RE E)
+    (hRK : ReabsorbKeeps R RE E) (track : Bool) (hist : List Op) (hok : ∀ op ∈ hist, InScopeCH R RE (fun _ => True) op) :
+    ∀ x ∈ runComp E { c := { track := track }, w := { fes := [] } } [] hist, JudgeOrGiveUp E x.1 x.2.1 x.2.2 :=
+  comp_hist2 H (fun _ _ => Or.inr hRK) hist _ [] [] (cinv_init R RE E track) hok
+
+/-- non-vacuity: in the consistent environment of C11 (`cHyps`) — constrain, ask for values, pin, ask whether a value is
+possible, ask again, contradict, ask: a history with calls AFTER value queries -/
+def cCompHist2 : List Op :=
+  [.add [cCon], .eval cExp 2 [], .satisfiable [], .add [cEq], .solution cExp 1 [], .batchEval [cExp] 2 [], .isTrue cCon [cEq],
+   .add [cFalse], .satisfiable [], .eval cExp 1 []]
+
+example : ∀ op ∈ cCompHist2, InScopeCH cR cRE OneName op := by
+  have hc : cR cCon := Or.inr (Or.inl rfl)
+  have hq : cR cEq := Or.inr (Or.inr (Or.inl rfl))
+  have hf : cR cFalse := Or.inl rfl
+  have h1 : OneName (namesFor [cExp.vars]) := oneName_namesFor (x := 0) (by simp [cExp])
+  have h2 : OneName (namesFor ([cExp].map (·.vars))) := oneName_namesFor (x := 0) (by simp [cExp])
+  intro op hop
+  simp only [cCompHist2, List.mem_cons, List.not_mem_nil, or_false] at hop
+  rcases hop with rfl | rfl | rfl | rfl | rfl | rfl | rfl | rfl | rfl | rfl
+  · exact ⟨fun c hc' => by simp at hc'; subst hc'; exact hc, fun c hc' hv => by simp at hc'; subst hc'; simp [cCon] at hv⟩
+  · exact ⟨rfl, rfl, by decide, rfl, h1⟩
+  · rfl
+  · exact ⟨fun c hc' => by simp at hc'; subst hc'; exact hq, fun c hc' hv => by simp at hc'; subst hc'; simp [cEq] at hv⟩
+  · exact ⟨rfl, rfl, by decide, rfl, h1⟩
+  · exact ⟨by simp, fun e he => by simp at he; subst he; exact ⟨rfl, rfl⟩, by decide, rfl, h2⟩
+  · trivial
+  · exact ⟨fun c hc' => by simp at hc'; subst hc'; exact hf, fun c hc' _ => by simp at hc'; subst hc'; simp [cFalse]⟩
+  · rfl
+  · exact ⟨rfl, rfl, by decide, rfl, h1⟩
+
 /-- **The full statement**: every history of public calls on a CompositeFrontend (hence, with the mixin layers of C11 on top, on
-a SolverComposite) is answered as the property statement demands for all the constraints added.  Proved: `C12_composite_partial`
-(whole histories of add / satisfiable()), with `combine` proved (`C12_combine_correct`, no hypothesis left), and
-`C12_query_after_history_partial` (such a history followed by ONE `eval` without extra constraints or `is_true` / `is_false` with
-any).  Also proved: `C12_batch_eval_correct`, `C12_solution_correct` (one such query in any state satisfying `CInv`;
-`C12_value_query_after_history_partial`).  Missing:
-  * calls AFTER a value query, and the value queries with EXTRA constraints (`_ensure_sat(extra)` reabsorbs before the query):
-    `_reabsorb_solver` does not raise (`C12_reabsorb_never_raises`) but does NOT re-establish `CInv` as stated —
-    `C12_reabsorb_breaks_CInv_as_stated`: a part made by `split()` keeps the exhausted-markers of `_trivial_model_optimization`
-    while `ModelCacheMixin.split` replaces its models (by none, when the split solver cached none); C11's `MCInv` is false for such
-    a record although the code guards every use of a marker by "some cached value".  Needed first: `MCInv`'s marker clauses under
-    the guard `models ≠ []` (C11 files), or `CInv.kids` restricted to the records `_solvers` reaches.  Then: in the case
-    `len(parts) == len(old)` `update` adds to the old child `t` only models whose key set is `t.variables` — restrictions of models of
-    the merged solver, valid for `t` because they agree with such a model on `t.variables` (no connectivity of children needed) — and
-    the markers of the part, which are those of a single `BVS == BVV` constraint `t` holds too; in the other case the parts replace
-    the children (`cinv_install` for several children at once; needs "no constraint without variables in a child", else the
-    `CONCRETE` part of `split()` is dropped);
-  * `min`, `max`: as `C12_batch_eval_correct` through `compQuery_judge` (the transfer `Equi` carries `Feasible`, hence `IsOpt`) once
-    the footprint of the child's `min` / `max` is proved: `FullFrontend.min/max` call `self.satisfiable` / `self.eval` (the footprint
-    of the whole class one stage down) and `_extrema`, for which only a specification under `satisfiable` exists (`z3Extrema_spec`);
+a SolverComposite) is answered as the property statement demands for all the constraints added.  Proved: **`C12_composite_history`**
+— ANY history of add / satisfiable() / eval / batch_eval / min / max / solution (no extra constraints) / is_true / is_false (any
+extra constraints), expressions over any variables, is answered right at EVERY step, and the bookkeeping invariant `CInv` holds at every
+step (`C12_call_correct`, `C12_composite_history_keeps_invariant`); `combine` (`C12_combine_correct`), `split` / `update` /
+`_reabsorb_solver` (`C12_reabsorb_keeps_invariant`) are proved.  The invariant is the one the code maintains: the marker clauses of
+C11's `MCInv` hold under the guard the code uses (`C12_marker_guarded`; `C12_reabsorb_marker_without_model` is the record that made
+the old form false).  Missing:
+  * the value queries with EXTRA constraints: `_ensure_sat(extra)` = `check_satisfiability(extra)` puts the extras on the merged
+    solver of their names, reabsorbs it, and checks the other unchecked children (`checkLoop` with `skip`): `compSatisfiable_spec`
+    is proved for `extra = []` only; the query itself then needs `Equi` with extras on both sides;
   * `simplify` (a child's `variables` may keep a variable its constraints lost: `ExactVars` fails, see design_notes/C12.md),
     `branch` / pickling of the composite (children shared copy-on-write between composites);
   * the mixins of class SolverComposite above CompositeFrontend, CompositedCacheMixin among them. -/
